@@ -34,7 +34,12 @@ def sorted_x(rng, m, kind=None):
 
 
 def values(rng, m, kind=None):
-    kind = kind or rng.choice(["dyadic", "dyadic", "int", "ties", "big", "const"])
+    kind = kind or rng.choice(["dyadic", "dyadic", "int", "ties", "big", "const", "baseline", "tiny"])
+    if kind == "baseline":   # small integer variation on a large level: absolute-magnitude shortcuts show up here
+        base = float(rng.choice([2 ** 20, 10 ** 6, -(2 ** 22)]))
+        return [base + rng.randint(-6, 6) for _ in range(m)]
+    if kind == "tiny":       # the same shape at a tiny scale
+        return [rng.randint(-8, 8) * 2.0 ** -30 for _ in range(m)]
     if kind == "int":
         return [float(rng.randint(-10, 10)) for _ in range(m)]
     if kind == "ties":  # neighbouring equal values
